@@ -86,6 +86,7 @@ func smallAtoms() []gen.Expr {
 		gen.B("=", gen.F("count", relPath(gen.Ch("*"))), gen.N(1)), gen.F("contains", relPath(gen.Dot()), gen.S("1")),
 		gen.B("=", gen.F("local-name"), gen.S("a")), gen.F("not", relPath(gen.Ch("a"))), gen.F("not", relPath(gen.St("ancestor", "a"))),
 		gen.F("true"), gen.F("false"),
+		gen.B("<", gen.N(1), relPath(gen.At("a"))), gen.B(">=", gen.N(2), relPath(gen.Dot())), gen.B("<=", gen.N(1), gen.F("count", relPath(gen.Ch("*")))),
 	}
 }
 
@@ -142,6 +143,21 @@ func c02Spaces(tier string) []*explore.Space {
 			for _, b := range ex {
 				p2 = append(p2, hostCase{relPath(withPred(h, gen.B("and", a, b))), relPath(h)})
 				p2 = append(p2, hostCase{relPath(withPred(h, gen.B("or", a, b))), relPath(h)})
+			}
+		}
+	}
+	// and/or whose direct operands are number- or string-valued (converted by boolean())
+	conv := []gen.Expr{gen.F("count", relPath(gen.Ch("*"))), gen.N(1), gen.N(0), gen.S("x"), gen.S(""), gen.F("string", relPath(gen.At("a"))), gen.F("local-name"),
+		gen.B("-", gen.F("count", relPath(gen.Ch("*"))), gen.N(1)), gen.F("string-length", relPath(gen.Dot())), gen.B("div", gen.N(0), gen.N(0))}
+	for _, h := range []gen.Step{gen.Ch("*"), gen.St("descendant-or-self", "node()"), gen.Ch("node()"), gen.At("*")} {
+		for _, c := range conv {
+			for _, a := range []gen.Expr{relPath(gen.Ch("a")), relPath(gen.At("a")), gen.B("=", relPath(gen.Dot()), gen.S("1")), gen.F("true"), gen.F("false")} {
+				for _, op := range []string{"and", "or"} {
+					p2 = append(p2, hostCase{relPath(withPred(h, gen.B(op, c, a))), relPath(h)}, hostCase{relPath(withPred(h, gen.B(op, a, c))), relPath(h)})
+				}
+			}
+			for _, c2 := range conv[:5] {
+				p2 = append(p2, hostCase{relPath(withPred(h, gen.B("and", c, c2))), relPath(h)}, hostCase{relPath(withPred(h, gen.B("or", c, c2))), relPath(h)})
 			}
 		}
 	}
